@@ -23,6 +23,9 @@ RULE = (
     "and parsed back; failures are diagnosed causally by repairing one feature of the value at a time (high octets, empty "
     "fields, control octets, specials) and re-running. Distinct by (type, boundary tags, presentation)."
 )
+RULE += " " + (
+    "Also: IPv6 look-alikes of the embedded-IPv4 forms; key / MAC / digest fields blown up beyond their length prefix (refused or encodable)."
+)
 ASSUMPTIONS = [
     "'well-formed' = produced by the type table (DESIGN.md Appendix A)",
     "lossless styles: any origin/relativize, chunk sizes with the default separator, txt_is_utf8 on or off, truncate_crypto off",
